@@ -58,6 +58,7 @@ type harnessRef struct {
 	tier   string // "" = both, "thorough" = thorough only
 	shards int    // top-level Choose farmed out over this many workers
 	shard  int
+	model  bool // counterexamples are replayed in the engine with the vector pinned (environment faults cannot be injected natively)
 }
 
 var shardsRe = regexp.MustCompile(`verif:shards=([0-9]+)`)
@@ -93,6 +94,9 @@ func findHarnesses(id string) ([]harnessRef, error) {
 			hr := harnessRef{dir: rel, fn: fd.Name.Name}
 			if fd.Doc != nil && strings.Contains(fd.Doc.Text(), "verif:thorough-only") {
 				hr.tier = "thorough"
+			}
+			if fd.Doc != nil && strings.Contains(fd.Doc.Text(), "verif:replay=model") {
+				hr.model = true
 			}
 			if fd.Doc != nil {
 				if m := shardsRe.FindStringSubmatch(fd.Doc.Text()); m != nil {
@@ -241,6 +245,31 @@ func cmdCheck(id, tier string) int {
 	knownFail := map[string][]string{}
 	replayed := 0
 	rp := newReplayer(m, id)
+	rp.modelReplay = func(rr *replayRec) (bool, string) {
+		var h harnessRef
+		for _, x := range hs {
+			if x.fn == rr.Harness {
+				h = x
+			}
+		}
+		if !h.model {
+			return false, ""
+		}
+		b := defaultBounds()
+		b.WallS = 120
+		w := NewWorld(ld.pi, b)
+		w.forced = rr.Vector
+		if w.forced == nil {
+			w.forced = []ndValue{}
+		}
+		res := w.Explore(Harness{Pkg: dirPkg[h.dir], Func: h.fn}, map[string]bool{})
+		for _, f := range res.Failures {
+			if f.Obligation == rr.Obligation {
+				return true, "MODEL-REPLAY reproduced " + rr.Obligation
+			}
+		}
+		return false, fmt.Sprintf("MODEL-REPLAY did not reproduce %s (%d paths)", rr.Obligation, res.Paths)
+	}
 	os.RemoveAll(filepath.Join(verifDir, "replays", id))
 	nrep := 0
 	for i, res := range results {
